@@ -5,10 +5,11 @@ namespace Once
 variable {σ : Type}
 
 /-- the ghost between two steps: no callbacks pending, no burst running -/
-def g0 (lv : Bool) : Ghost := { rem := [], e0 := 0, run := none, lv := lv }
+def g0 (lv strict : Bool) : Ghost := { rem := [], e0 := 0, run := none, lv := lv, strict := strict }
 
-/-- the invariant as it holds between steps (`lv`: with the "no live process is lost" clause) -/
-def Inv0 (lv : Bool) (s : KState ℚ σ) : Prop := Inv (g0 lv) s
+/-- the invariant as it holds between steps (`lv`: with the "no live process is lost" clause; `strict`: for runs
+whose `_resume` loops never run out of fuel) -/
+def Inv0 (lv : Bool) (s : KState ℚ σ) (strict : Bool := false) : Prop := Inv (g0 lv strict) s
 
 /-- **an event is in the agenda at most once, and only while it is triggered and unprocessed** -/
 structure AgendaOnce (s : KState ℚ σ) : Prop where
@@ -27,38 +28,78 @@ def NoneLost (s : KState ℚ σ) : Prop :=
   ∀ p pr, s.proc? p = some pr → (s.ev p).out = none →
     ∃ t, pr.target = some t ∧ t < s.events.size ∧ ((s.ev t).cbs = none ∨ ∃ L, (s.ev t).cbs = some L ∧ Cb.resume p ∈ L)
 
-theorem Inv0.weaken {s : KState ℚ σ} (h : Inv0 true s) : Inv0 false s :=
+/-- …and if no `_resume` loop ever runs out of fuel: every unfinished process is registered on its target -/
+def AllRegistered (s : KState ℚ σ) : Prop :=
+  ∀ p pr, s.proc? p = some pr → (s.ev p).out = none →
+    ∃ t L, pr.target = some t ∧ (s.ev t).cbs = some L ∧ Cb.resume p ∈ L
+
+theorem Inv0.weaken {strict : Bool} {s : KState ℚ σ} (h : Inv0 true s strict) : Inv0 false s strict :=
   ⟨h.c.ghost (fun _ h => h) h.c.rem_count rfl (fun p hp => by cases hp), h.q, ⟨fun hl => by cases hl⟩⟩
 
-theorem Inv0.agendaOnce {lv : Bool} {s : KState ℚ σ} (h : Inv0 lv s) : AgendaOnce s :=
+/-- the initial invariant does not depend on the mode -/
+theorem Inv0.strict_irrel {lv a b : Bool} {s : KState ℚ σ} (h : Inv0 lv s a)
+    (hreg : lv = true → b = true → AllRegistered s) : Inv0 lv s b := by
+  refine ⟨h.c.ghost (fun _ h => h) h.c.rem_count rfl (fun p hp => by cases hp), h.q, ⟨?_⟩⟩
+  intro hl p pr hp ho _
+  obtain ⟨t, h1, h2, h3⟩ := h.l.live hl p pr hp ho (by simp [g0])
+  refine ⟨t, h1, h2, ?_⟩
+  rcases Bool.eq_false_or_eq_true b with hb | hb
+  · obtain ⟨t', L, h4, h5, h6⟩ := hreg hl hb p pr hp ho
+    rw [h1] at h4; cases h4
+    exact Or.inr (Or.inl ⟨L, h5, h6⟩)
+  · rcases h3 with ⟨_, h3⟩ | h3 | ⟨_, h3⟩
+    · cases h3
+    · exact Or.inr (Or.inl h3)
+    · exact Or.inr (Or.inr ⟨hb, h3⟩)
+
+theorem Inv0.agendaOnce {lv strict : Bool} {s : KState ℚ σ} (h : Inv0 lv s strict) : AgendaOnce s :=
   ⟨by rw [List.Nodup, List.pairwise_map]; exact h.c.ag_distinct, h.c.ag_live⟩
 
-theorem Inv0.regOnce {lv : Bool} {s : KState ℚ σ} (h : Inv0 lv s) : RegOnce s := by
+theorem Inv0.regOnce {lv strict : Bool} {s : KState ℚ σ} (h : Inv0 lv s strict) : RegOnce s := by
   intro e L p hL hm
   obtain ⟨h1, h2, h3, _⟩ := h.c.reg e L p hL hm
   exact ⟨h1, h2, h3⟩
 
-theorem Inv0.noneLost {s : KState ℚ σ} (h : Inv0 true s) : NoneLost s :=
-  fun p pr hp ho => h.l.live rfl p pr hp ho (by simp [g0])
+theorem Inv0.noneLost {strict : Bool} {s : KState ℚ σ} (h : Inv0 true s strict) : NoneLost s := by
+  intro p pr hp ho
+  obtain ⟨t, h1, h2, h3⟩ := h.l.live rfl p pr hp ho (by simp [g0])
+  refine ⟨t, h1, h2, ?_⟩
+  rcases h3 with ⟨_, h3⟩ | h3 | ⟨_, h3⟩
+  · cases h3
+  · exact Or.inr h3
+  · exact Or.inl h3
+
+theorem Inv0.allRegistered {s : KState ℚ σ} (h : Inv0 true s true) : AllRegistered s := by
+  intro p pr hp ho
+  obtain ⟨t, h1, _, h3⟩ := h.l.live rfl p pr hp ho (by simp [g0])
+  rcases h3 with ⟨_, h3⟩ | ⟨L, h3, h4⟩ | ⟨h3, _⟩
+  · cases h3
+  · exact ⟨t, L, h1, h3, h4⟩
+  · cases h3
 
 /-! ## the ghost's `e0` is irrelevant when no callbacks are pending -/
 
 theorem Inv.e0 {g : Ghost} {s : KState ℚ σ} (hi : Inv g s) (hrem : g.rem = []) (x : EvId) : Inv { g with e0 := x } s := by
   refine ⟨⟨hi.c.ag_distinct, hi.c.ag_live, hi.c.done_trig, hi.c.procs, hi.c.reg, hi.c.intr, hi.c.check, hi.c.pend, ?_,
-    hi.c.rem_check, ?_, hi.c.rem_count⟩, hi.q, hi.l.ghost (fun _ h => h) (fun h => h)⟩
+    hi.c.rem_check, ?_, hi.c.rem_count⟩, hi.q, hi.l.ghost (fun _ h => h) (fun h => h) ?_⟩
   · intro p hp
     have : Cb.resume p ∈ g.rem := hp
     rw [hrem] at this; cases this
   · intro iv hv
     have : Cb.intr iv ∈ g.rem := hv
     rw [hrem] at this; cases this
+  · intro p t h _
+    rcases h with ⟨_, h2⟩ | h | h
+    · rw [hrem] at h2; cases h2
+    · exact Or.inr (Or.inl h)
+    · exact Or.inr (Or.inr h)
 
 /-! ## the pop -/
 
 /-- **the pop keeps the invariant**: the processes that waited for the popped event become the pending ones -/
-theorem Inv.openEvent {lv : Bool} {s : KState ℚ σ} (hi : Inv0 lv s) (q : QEntry ℚ) (rest : List (QEntry ℚ))
+theorem Inv.openEvent {lv strict : Bool} {s : KState ℚ σ} (hi : Inv0 lv s strict) (q : QEntry ℚ) (rest : List (QEntry ℚ))
     (hq : popMin s.agenda = some (q, rest)) (L : List Cb) (hL : (s.ev q.ev).cbs = some L) :
-    Inv { rem := L, e0 := q.ev, run := none, lv := lv } (_root_.openEvent s q rest) := by
+    Inv { rem := L, e0 := q.ev, run := none, lv := lv, strict := strict } (_root_.openEvent s q rest) := by
   have sp := popMin_spec _ _ _ hq
   have hqmem : q ∈ s.agenda := sp.1.symm.subset List.mem_cons_self
   have hsub : ∀ b ∈ rest, b ∈ s.agenda := fun b hb => sp.1.symm.subset (List.mem_cons_of_mem _ hb)
@@ -128,45 +169,50 @@ theorem Inv.openEvent {lv : Bool} {s : KState ℚ σ} (hi : Inv0 lv s) (q : QEnt
     · exact Nat.le_of_eq (hi.c.reg q.ev L p hL hm).2.2.1
     · rw [List.count_eq_zero.mpr hm]; exact Nat.zero_le _
   · exact hi.q.keep (fun _ => rfl) (fun _ => rfl) (fun e h _ => ⟨hk e, by rw [ho]; exact h⟩)
-  · refine hi.l.transfer (by rw [hsz]) (fun _ => rfl) (fun p hp => by rw [← ho]; exact hp) (fun _ h => h) (fun h => h) ?_ ?_
-    · intro e _ hc
+  · refine hi.l.transfer' (by rw [hsz]) (fun _ => rfl) (fun p hp => by rw [← ho]; exact hp) (fun _ h => h) (fun h => h) ?_
+    intro p t h _ _
+    rcases h with ⟨_, h2⟩ | ⟨L', h1, h2⟩ | ⟨h1, h2⟩
+    · cases h2
+    · by_cases ht : t = q.ev
+      · subst ht
+        rw [hL] at h1; cases h1
+        exact Or.inl ⟨rfl, h2⟩
+      · exact Or.inr (Or.inl ⟨L', by rw [hcb, if_neg ht]; exact h1, h2⟩)
+    · refine Or.inr (Or.inr ⟨h1, ?_⟩)
       rw [hcb]; split
       · rfl
-      · exact hc
-    · intro e L' p hL' hm _
-      rw [hcb]; split
-      · exact Or.inl rfl
-      · exact Or.inr ⟨L', hL', hm⟩
+      · exact h2
 
 /-! ## one step, whole runs -/
 
 /-- the popped event is never one that has been processed already -/
-theorem Inv0.pop_unprocessed {lv : Bool} {s : KState ℚ σ} (hi : Inv0 lv s) (q : QEntry ℚ) (rest : List (QEntry ℚ))
+theorem Inv0.pop_unprocessed {lv strict : Bool} {s : KState ℚ σ} (hi : Inv0 lv s strict) (q : QEntry ℚ) (rest : List (QEntry ℚ))
     (hq : popMin s.agenda = some (q, rest)) : (s.ev q.ev).cbs ≠ none :=
   (hi.c.ag_live q ((popMin_spec _ _ _ hq).1.symm.subset List.mem_cons_self)).2
 
 /-- **one kernel step keeps the invariant**, however it ends -/
-theorem Inv0.step (body : σ → Resume → Burst ℚ σ) (fuel : Nat) {lv : Bool} {s s' : KState ℚ σ} (hi : Inv0 lv s)
-    (hfuel : lv = true → 0 < fuel) (hsafe : SafeStep body fuel s) (hs : (step body fuel s).state? = some s') :
-    Inv0 lv s' := by
+theorem Inv0.step (body : σ → Resume → Burst ℚ σ) (fuel : Nat) {lv strict : Bool} {s s' : KState ℚ σ} (hi : Inv0 lv s strict)
+    (hfuel : lv = true → 0 < fuel) (hsafe : SafeStep body fuel s) (hnh : strict = true → NoHangStep body fuel s)
+    (hs : (step body fuel s).state? = some s') : Inv0 lv s' strict := by
   unfold _root_.step at hs
   unfold SafeStep at hsafe
+  unfold NoHangStep at hnh
   split at hs
   · cases hs
   · rename_i q rest hq
-    rw [hq] at hsafe
-    simp only at hsafe
+    rw [hq] at hsafe hnh
+    simp only at hsafe hnh
     split at hs
     · rename_i hnone
       exact absurd hnone (hi.pop_unprocessed q rest hq)
     · rename_i L hL
-      rw [hL] at hsafe
-      simp only at hsafe
+      rw [hL] at hsafe hnh
+      simp only at hsafe hnh
       rw [closeEvent_state] at hs
       cases hs
       have h1 := Inv.openEvent hi q rest hq L hL
-      have h2 := Inv.foldCbs body fuel L { rem := L, e0 := q.ev, run := none, lv := lv } { s := _root_.openEvent s q rest }
-        rfl rfl hfuel h1 hsafe
+      have h2 := Inv.foldCbs body fuel L { rem := L, e0 := q.ev, run := none, lv := lv, strict := strict }
+        { s := _root_.openEvent s q rest } rfl rfl hfuel h1 hsafe hnh
       exact h2.e0 rfl 0
 
 theorem KReach.trans {body : σ → Resume → Burst ℚ σ} {fuel : Nat} {s0 s1 s2 : KState ℚ σ}
@@ -176,11 +222,12 @@ theorem KReach.trans {body : σ → Resume → Burst ℚ σ} {fuel : Nat} {s0 s1
   | step _ hs ih => exact KReach.step ih hs
 
 /-- **the invariant holds in every state of every safe run** -/
-theorem Inv0.reach (body : σ → Resume → Burst ℚ σ) (fuel : Nat) {lv : Bool} {s0 s : KState ℚ σ} (h0 : Inv0 lv s0)
-    (hfuel : lv = true → 0 < fuel) (hsafe : SafeRun body fuel s0) (hr : KReach body fuel s0 s) : Inv0 lv s := by
+theorem Inv0.reach (body : σ → Resume → Burst ℚ σ) (fuel : Nat) {lv strict : Bool} {s0 s : KState ℚ σ} (h0 : Inv0 lv s0 strict)
+    (hfuel : lv = true → 0 < fuel) (hsafe : SafeRun body fuel s0) (hnh : strict = true → NoHangRun body fuel s0)
+    (hr : KReach body fuel s0 s) : Inv0 lv s strict := by
   induction hr with
   | init => exact h0
-  | step hr' hs ih => exact ih.step body fuel hfuel (hsafe _ hr') hs
+  | step hr' hs ih => exact ih.step body fuel hfuel (hsafe _ hr') (fun h => hnh h _ hr') hs
 
 /-! ## the program-level sufficient condition -/
 
@@ -237,8 +284,8 @@ theorem SafeProg.run {body : σ → Resume → Burst ℚ σ} (h : SafeProg body)
 
 /-- the empty environment (resources with empty queues) satisfies the invariant -/
 theorem Inv0.init (lv : Bool) (t0 : ℚ) (rs : Array ResRec)
-    (h : ∀ r, (rs.getD r default).putQ = [] ∧ (rs.getD r default).getQ = []) :
-    Inv0 lv ({ now := t0, resources := rs } : KState ℚ σ) := by
+    (h : ∀ r, (rs.getD r default).putQ = [] ∧ (rs.getD r default).getQ = []) (strict : Bool := false) :
+    Inv0 lv ({ now := t0, resources := rs } : KState ℚ σ) strict := by
   have hev : ∀ e, ({ now := t0, resources := rs } : KState ℚ σ).ev e = default := fun e => by simp [KState.ev]
   have hpr : ∀ p, ({ now := t0, resources := rs } : KState ℚ σ).proc? p = none := fun p => rfl
   refine ⟨⟨?_, ?_, ?_, ?_, ?_, ?_, ?_, ?_, ?_, ?_, ?_, ?_⟩, ⟨?_, ?_⟩, ⟨?_⟩⟩
@@ -263,11 +310,11 @@ theorem Inv0.init (lv : Bool) (t0 : ℚ) (rs : Array ResRec)
   · intro _ p pr hp; rw [hpr] at hp; cases hp
 
 /-- starting a process from outside (`env.process(...)` in the main program) keeps the invariant -/
-theorem Inv0.spawn {lv : Bool} {s : KState ℚ σ} (hi : Inv0 lv s) (self : EvId) (st : σ) :
-    Inv0 lv (doCall s self (.spawn st)).1 := Inv.spawn hi self st
+theorem Inv0.spawn {lv strict : Bool} {s : KState ℚ σ} (hi : Inv0 lv s strict) (self : EvId) (st : σ) :
+    Inv0 lv (doCall s self (.spawn st)).1 strict := Inv.spawn hi self st
 
 /-- `run(until=event)` subscribes `StopSimulation.callback` to the event: the invariant is kept -/
-theorem Inv0.until_event {lv : Bool} {s : KState ℚ σ} (hi : Inv0 lv s) (e : EvId) : Inv0 lv (s.addCb e .stop) :=
+theorem Inv0.until_event {lv strict : Bool} {s : KState ℚ σ} (hi : Inv0 lv s strict) (e : EvId) : Inv0 lv (s.addCb e .stop) strict :=
   Inv.addCb hi e .stop (fun p h => by cases h) (fun iv h => by cases h) (fun c h => by cases h)
 
 end Once
